@@ -30,13 +30,17 @@ theorem C15_sopEq_iff (a b : SOpObj) : sopEq a b = true ↔ a = b := by
   · rintro ⟨⟨h1, h2⟩, h3⟩; exact ⟨h1, h2, h3⟩
   · rintro ⟨h1, h2, h3⟩; exact ⟨⟨h1, h2⟩, h3⟩
 
-/-- **C15 (schedules).** -/
-theorem C15_schedEq_iff (a b : List (List SOpObj)) : schedEq a b = true ↔ a = b :=
-  listEq_iff _ (listEq_iff _ C15_sopEq_iff) a b
-
 /-- **C15 (instances).** -/
 theorem C15_instEq_iff (a b : List (List OpObj)) : instEq a b = true ↔ a = b :=
   listEq_iff _ (listEq_iff _ C15_opEq_iff) a b
+
+/-- **C15 (schedules).** A schedule is its instance together with its per-machine lists: two schedules are equal exactly when both
+coincide (partial schedules of different instances are different schedules). -/
+theorem C15_schedEq_iff (a b : SchedObj) : schedEq a b = true ↔ a = b := by
+  obtain ⟨ia, sa⟩ := a
+  obtain ⟨ib, sb⟩ := b
+  simp only [schedEq, Bool.and_eq_true, C15_instEq_iff, Prod.mk.injEq]
+  exact and_congr Iff.rfl (listEq_iff _ (listEq_iff _ C15_sopEq_iff) sa sb)
 
 /-- **C15 (equivalence relation).** Equality on each of the four kinds of object is reflexive, symmetric
 and transitive — a consequence of coinciding with content equality. -/
@@ -45,8 +49,8 @@ theorem C15_equivalence :
     (∀ a b c : OpObj, opEq a b = true → opEq b c = true → opEq a c = true) ∧
     (∀ a : List (List OpObj), instEq a a = true) ∧ (∀ a b : List (List OpObj), instEq a b = instEq b a) ∧
     (∀ a b c : List (List OpObj), instEq a b = true → instEq b c = true → instEq a c = true) ∧
-    (∀ a : List (List SOpObj), schedEq a a = true) ∧ (∀ a b : List (List SOpObj), schedEq a b = schedEq b a) ∧
-    (∀ a b c : List (List SOpObj), schedEq a b = true → schedEq b c = true → schedEq a c = true) ∧
+    (∀ a : SchedObj, schedEq a a = true) ∧ (∀ a b : SchedObj, schedEq a b = schedEq b a) ∧
+    (∀ a b c : SchedObj, schedEq a b = true → schedEq b c = true → schedEq a c = true) ∧
     (∀ a : SOpObj, sopEq a a = true) ∧ (∀ a b : SOpObj, sopEq a b = sopEq b a) ∧
     (∀ a b c : SOpObj, sopEq a b = true → sopEq b c = true → sopEq a c = true) := by
   have sym : ∀ {α} (eq : α → α → Bool), (∀ a b, eq a b = true ↔ a = b) → ∀ a b, eq a b = eq b a := by
